@@ -12,11 +12,11 @@ func prop(id, title string, quick, thorough []string, decided, notDecided string
 func init() {
 	prop("C01", "Token flow conforms to BPMN semantics",
 		[]string{"R1", "R2", "R3", "R3d", "R3e", "R5", "R6", "R7", "R8", "R9", "R10", "R13", "R36", "R38", "R39", "R51", "R57", "R52", "R53", "R54", "R59"}, nil,
-		"Structural necessary conditions of token accounting, decided on every path of the analysed functions: every token goroutine is counted before it starts and uncounted exactly once on every exit (R1); every request taken from a node mailbox is answered, parked, delegated or reported on every path and never answered twice, a releasing join hands each parked token exactly one action and empties its parked list / counter (R2,R3,R3d); every message type posted has a handler (R5) and every action type an interpreter, enum switches are exhaustive (R6); forked flows start only after the FlowTrace that announces them, a terminal trace is the last trace, leave/move/visit are ordered, every token exit is announced (R7-R10); the element->node mapping is frozen before use (R13); process and sub-process build and register the same 18 node kinds with checked constructor errors (R36).",
+		"Structural necessary conditions of token accounting, decided on every path of the analysed functions: every token goroutine is counted before it starts and uncounted exactly once on every exit (R1); every request taken from a node mailbox is answered, parked, delegated or reported on every path and never answered twice, a releasing join hands each parked token exactly one action and empties its parked list / counter (R2,R3,R3d); every message type posted has a handler (R5) and every action type an interpreter, enum switches are exhaustive (R6); forked flows start only after the FlowTrace that announces them, a terminal trace is the last trace, leave/move/visit are ordered, every token exit is announced (R7-R10); the element->node mapping is frozen before use (R13); process and sub-process build and register the same 18 node kinds with checked constructor errors (R36). Round 2: a probed decision is final and its reply slot is cleared on every answering path (R52,R53); the inclusive join's decision depends on the identities of arrived and awaited tokens and is re-evaluated after every refresh of the cohort (R54,R59); a token that did not move never asks its node again (R57).",
 		"that conditions evaluate to the right truth value, that the number of requests equals what the token game prescribes for a given graph and data, order consistency for a given graph, final variable values (these quantify over process graphs and inputs).")
 	prop("C02", "Completion is reported iff all start events fired and no token remains",
 		[]string{"R1", "R11", "R12", "R14[WaitUntilComplete]", "R58", "R60"}, nil,
-		"Decides: the wait group 'no token remains' is read from is paired (R1); CeaseFlowTrace has one send site per monitor, only in the branch that saw the flow wait group drained and after the loop that counted all start events, the completion lock is taken synchronously before the monitor goroutine exists and released on all exits, and WaitUntilComplete observes that lock (R12); the monitor's subscription must precede the start trigger (R11); WaitUntilComplete and its helper contain no unguarded blocking operation, i.e. a waiter whose context expired cannot leave a helper behind that owns the completion lock (R14).",
+		"Decides: the wait group 'no token remains' is read from is paired (R1); CeaseFlowTrace has one send site per monitor, only in the branch that saw the flow wait group drained and after the loop that counted all start events, the completion lock is taken synchronously before the monitor goroutine exists and released on all exits, and WaitUntilComplete observes that lock (R12); the monitor's subscription must precede the start trigger (R11); WaitUntilComplete and its helper contain no unguarded blocking operation, i.e. a waiter whose context expired cannot leave a helper behind that owns the completion lock (R14). Round 2: every mutex (incl. the completion lock) is released on every path or handed over structurally (R58); start trigger, monitor and watchers run under the caller's context (R60).",
 		"bounded latency of completion, behaviour with several start events beyond the single send site, 'exactly once after every other flow trace' as a history fact.")
 	prop("C03", "Parallel gateway",
 		[]string{"R2", "R3", "R3d", "R3e", "R4", "R24", "R47", "R51"}, nil,
@@ -24,11 +24,11 @@ func init() {
 		"that the comparison is == N rather than >= N, the partition arithmetic of distributeFlows (value-level facts).")
 	prop("C04", "Exclusive gateway",
 		[]string{"R2", "R5", "R24", "R26", "R38", "R39", "R51", "R52", "R53"}, nil,
-		"Decides: every request and every probe report is answered, parked, re-queued or reported (R2,R5); probing state is confined to the gateway goroutine (R24); both registered expression engines are usable from the token goroutine without a nil-map write (R26a); the list of candidate flows is an order-preserving filter of the gateway's outgoing flows and is not reordered afterwards (R39); a decision handed to a token is a fresh slice that later decisions cannot overwrite (R38).",
+		"Decides: every request and every probe report is answered, parked, re-queued or reported (R2,R5); probing state is confined to the gateway goroutine (R24); both registered expression engines are usable from the token goroutine without a nil-map write (R26a); the list of candidate flows is an order-preserving filter of the gateway's outgoing flows and is not reordered afterwards (R39); a decision handed to a token is a fresh slice that later decisions cannot overwrite (R38). Round 2: the flowAction answered after a probe marks its flows unconditional (R52); the probing slot is cleared on every answering path (R53).",
 		"'first true wins' as a value fact, truth values of conditions, position of the default.")
 	prop("C05", "Inclusive gateway",
 		[]string{"R2", "R3", "R3e", "R4", "R10", "R16", "R19", "R22", "R24", "R47", "R48", "R52", "R53", "R54", "R59"}, nil,
-		"Decides: requests are never dropped (R2); every way a token can end is visible in the trace stream the join's tracker reads (R10); the tracker's subscription and goroutine have a lifecycle (R19,R16); tracker map accesses follow its lock protocol (R22); gateway state is confined (R24); the join releases each parked token exactly once and re-arms (R3); reply capacity (R4).",
+		"Decides: requests are never dropped (R2); every way a token can end is visible in the trace stream the join's tracker reads (R10); the tracker's subscription and goroutine have a lifecycle (R19,R16); tracker map accesses follow its lock protocol (R22); gateway state is confined (R24); the join releases each parked token exactly once and re-arms (R3); reply capacity (R4). Round 2: R52/R53 as for the exclusive gateway; the synchronise decision is control dependent on the elements of both the awaited and the arrived set (R54) and is re-evaluated after each cohort refresh (R59).",
 		"that `awaiting` is the right set at the right time (it is read from an asynchronously maintained picture), early or late firing under a given schedule.")
 	prop("C06", "Event-based gateway",
 		[]string{"R0", "R16", "R20", "R21", "R23", "R25"}, nil,
@@ -36,58 +36,58 @@ func init() {
 		"'the instance goes on to complete', outcomes of particular delivery interleavings.")
 	prop("C07", "Cancellation stops everything and leaks nothing",
 		[]string{"R0", "R1", "R4", "R12", "R14", "R16", "R17", "R18", "R19", "R20", "R21", "R40", "R58", "R60", "R56"}, nil,
-		"Decides, for every goroutine the engine can start and every channel operation in the engine packages: each operation falls into a discharged class — select-guarded by a done-source or default, reply with capacity, mailbox post with a running owner, tracer protocol, closed-only/timer receive, buffered single-use (R0,R4,R14); every parking loop leaves through a done-source case and no done-source case spins (R16); what a goroutine acquired it releases on all exits: wait-group count (R1), sender handle (R17), subscription (R19), completion lock (R12); every goroutine that sends traces holds a sender handle of the tracer it sends on (R18); channels are closed once and never sent to afterwards (R20,R21).",
+		"Decides, for every goroutine the engine can start and every channel operation in the engine packages: each operation falls into a discharged class — select-guarded by a done-source or default, reply with capacity, mailbox post with a running owner, tracer protocol, closed-only/timer receive, buffered single-use (R0,R4,R14); every parking loop leaves through a done-source case and no done-source case spins (R16); what a goroutine acquired it releases on all exits: wait-group count (R1), sender handle (R17), subscription (R19), completion lock (R12); every goroutine that sends traces holds a sender handle of the tracer it sends on (R18); channels are closed once and never sent to afterwards (R20,R21). Round 2: lock pairing (R58), context agreement (R60), per-request goroutine state (R56); a registered sender handle reaches its owner goroutine on every path (R17 post-dominance).",
 		"'promptly'; that a task request racing the cancel carries a cancelled context beyond the structural binding; liveness of third-party code.")
 	prop("C08", "Task requests",
 		[]string{"R6", "R14[Do]", "R20", "R27", "R40", "R55", "R56"}, nil,
-		"Decides: Do cannot block (R14); the answer path forwards at most one response and always closes `done` exactly once (R20,R40); only declared result names / data outputs reach instance data (R27); the error-mode switch is exhaustive, the retry branch steps the counter on every path back to the select, skip falls through to the flow handling and exit returns (R6,R40).",
+		"Decides: Do cannot block (R14); the answer path forwards at most one response and always closes `done` exactly once (R20,R40); only declared result names / data outputs reach instance data (R27); the error-mode switch is exhaustive, the retry branch steps the counter on every path back to the select, skip falls through to the flow handling and exit returns (R6,R40). Round 2: the retry decision is taken against Reset(handler.Retries) on every path and every further attempt is stepped (R55); the per-request goroutine shares no mutable state declared outside the message loop (R56).",
 		"'first Do wins' as a value fact, retry count arithmetic.")
 	prop("C09", "Trace stream total order",
 		[]string{"R7", "R8", "R9", "R37", "R63"}, nil,
-		"Decides: single broadcaster, sequential, non-dropping delivery to every subscriber, subscriber list confined to it, one select serving subscribe/unsubscribe/trace/terminate, Unsubscribe drains while requesting, relay forwards sequentially (R37); announce-before-start, terminal-last, leave/visit bracketing in the token goroutine (R7,R8,R9).",
+		"Decides: single broadcaster, sequential, non-dropping delivery to every subscriber, subscriber list confined to it, one select serving subscribe/unsubscribe/trace/terminate, Unsubscribe drains while requesting, relay forwards sequentially (R37); announce-before-start, terminal-last, leave/visit bracketing in the token goroutine (R7,R8,R9). Round 2: removal of a subscriber moves the last element into the hole, not the other way round (R63).",
 		"absence of deadlock in general (Subscribe after termination blocks), per-run order facts.")
 	prop("C10", "Boundary events",
 		[]string{"R41", "R23", "R0", "R61", "R62"}, nil,
-		"Decides: Activity.Cancel is called only inside the harness's once-only cancellation; the interrupting transformer is installed iff CancelActivity(); events reach boundary listeners only while the activity is active and `active` is set before the activity is asked and cleared after its answer is relayed (R41,R23); necessary conditions for 'normal flow never after interruption' (state written by the cancellation is read on the relay path) and for 'boundary listeners do not keep the instance from completing' (listener flows do not count on the process wait group or are terminated with the activity) (R41).",
+		"Decides: Activity.Cancel is called only inside the harness's once-only cancellation; the interrupting transformer is installed iff CancelActivity(); events reach boundary listeners only while the activity is active and `active` is set before the activity is asked and cleared after its answer is relayed (R41,R23); necessary conditions for 'normal flow never after interruption' (state written by the cancellation is read on the relay path) and for 'boundary listeners do not keep the instance from completing' (listener flows do not count on the process wait group or are terminated with the activity) (R41). Round 2: per-iteration state of the boundary-event loop does not leak between boundary events (R61); no mailbox post is lossy (R62).",
 		"interleavings of event and answer.")
 	prop("C11", "Event delivery",
 		[]string{"R3", "R5", "R14[ConsumeEvent]", "R22", "R41", "R42", "R62"}, nil,
-		"Decides: delivery cannot block on a node that was never reached (R14); ForwardEvent visits every consumer; the consumer list is copied under the read lock and forwarded outside it; a catch event matches only while activated, releases every parked token exactly once and clears the list (R42,R3,R22); posted message types have handlers (R5).",
+		"Decides: delivery cannot block on a node that was never reached (R14); ForwardEvent visits every consumer; the consumer list is copied under the read lock and forwarded outside it; a catch event matches only while activated, releases every parked token exactly once and clears the list (R42,R3,R22); posted message types have handlers (R5). Round 2: no post of a delivered event to a node mailbox can be skipped by a default clause (R62).",
 		"matching semantics per event kind, 'dropped without effect on later listeners' as a history fact.")
 	prop("C12", "Embedded sub-process",
 		[]string{"R1", "R2", "R3", "R11", "R36", "R35", "R60", "R73", "R12"}, nil,
-		"Decides: the completion signal the parent waits for can reach it (trace route, R35); the parent is resumed only after that signal and once (R2,R3); the inner monitor and the forwarding subscription precede the inner start (R11); the sub-process supports exactly the node kinds of a process (R36); inner tokens are counted (R1).",
+		"Decides: the completion signal the parent waits for can reach it (trace route, R35); the parent is resumed only after that signal and once (R2,R3); the inner monitor and the forwarding subscription precede the inner start (R11); the sub-process supports exactly the node kinds of a process (R36); inner tokens are counted (R1). Round 2: the inner start runs under the caller's context (R60); the sub-process shares the enclosing scope's data locator (R73); the completion monitor's counting loop has no other exit (R12).",
 		"equivalence with the inlined content, re-entry in a loop.")
 	prop("C13", "Timers",
 		[]string{"R3", "R16", "R20", "R21", "R43", "R62", "R65"}, nil,
-		"Decides: the timer callback runs only after a receive from the channel returned by clock.Until/After; one-shot timers call it at most once and then close; the cycle loop tests `repetitions == 0` at its head and decrements on every iteration; after ctx.Done and end-timer cases the function returns (R43,R16); sends never follow close, closes run once (R21,R20); the mock clock sorts before it delivers and removes what it delivered (R43).",
+		"Decides: the timer callback runs only after a receive from the channel returned by clock.Until/After; one-shot timers call it at most once and then close; the cycle loop tests `repetitions == 0` at its head and decrements on every iteration; after ctx.Done and end-timer cases the function returns (R43,R16); sends never follow close, closes run once (R21,R20); the mock clock sorts before it delivers and removes what it delivered (R43). Round 2: event posts are not lossy (R62); an index loop that removes the current timer steps back (R65).",
 		"every clause about times: never early for a given clock history, interval spacing, end bound.")
 	prop("C14", "Multiple / parallel-multiple catch events",
 		[]string{"R44", "R63"}, nil,
-		"Decides: an event that matches no definition changes nothing — every store that mutates satisfier state is control-dependent on a successful MatchesEventInstance; Satisfy is only called from a node's run goroutine or under a mutex (R44).",
+		"Decides: an event that matches no definition changes nothing — every store that mutates satisfier state is control-dependent on a successful MatchesEventInstance; Satisfy is only called from a node's run goroutine or under a mutex (R44). Round 2: a completed chain is removed by moving the last chain into its place (R63).",
 		"the counting arithmetic over histories (the substance of the property).")
 	prop("C15", "XML round trip",
 		[]string{"R29", "R30", "R31", "R71"}, nil,
-		"Decides: id retrievability is structurally complete — every child-element field of every schema struct is reached by its FindBy (R29); writer/reader tables agree: every namespace in a struct tag is mapped, every prefix written has an xmlns declaration, the xsi:type attribute written is the one tested on parse, marshal and unmarshal expression kinds form the same closed set (R30); serialising does not write to the model (R31).",
+		"Decides: id retrievability is structurally complete — every child-element field of every schema struct is reached by its FindBy (R29); writer/reader tables agree: every namespace in a struct tag is mapped, every prefix written has an xmlns declaration, the xsi:type attribute written is the one tested on parse, marshal and unmarshal expression kinds form the same closed set (R30); serialising does not write to the model (R31). Round 2: documents are decoded into fresh values, never into a value aliasing package-level defaults (R71).",
 		"equality of the re-parsed model, identical engine behaviour.")
 	prop("C16", "Values survive storage; nothing panics",
 		[]string{"R26", "R28", "R45", "R66", "R67"}, nil,
-		"Decides: reflect accessor/kind agreement and nil-type discipline in the value layer (R26b,c); ItemType switches are exhaustive (R28); no mutable package-level state in the value/data layer besides a locked registry, and NewOptions allocates a fresh locator (R45).",
+		"Decides: reflect accessor/kind agreement and nil-type discipline in the value layer (R26b,c); ItemType switches are exhaustive (R28); no mutable package-level state in the value/data layer besides a locked registry, and NewOptions allocates a fresh locator (R45). Round 2: numbers are written into ItemValue with a lossless format (R66); a map decoded with the error ignored is never nil (R67).",
 		"round-trip equality of values (formatting, integer ranges).")
 	prop("C17", "No data race, no panic",
 		[]string{"R20", "R21", "R22", "R23", "R24", "R25", "R26", "Rerr", "R58", "R1"}, nil,
-		"Decides: lockset discipline over all mutex-bearing structs (R22), atomic-only consistency (R23), owner-goroutine confinement of node state (R24), closure-shared locals (R25), nil-map / reflect discipline (R26), dropped constructor errors (Rerr, thorough).",
+		"Decides: lockset discipline over all mutex-bearing structs (R22), atomic-only consistency (R23), owner-goroutine confinement of node state (R24), closure-shared locals (R25), nil-map / reflect discipline (R26), dropped constructor errors (Rerr, thorough). Round 2: lock pairing on every path (R58); wait-group Add precedes the go statement (R1).",
 		"races on memory that has no discipline to infer; 'the outcome is one the sequential semantics allows'.")
 	prop("C18", "Process set",
 		[]string{"R1", "R11", "R14[WaitUntilComplete]", "R20", "R22", "R35", "R46", "R58", "R60", "R64", "R62"}, nil,
-		"Decides: `done` closed once (R20); watchers subscribed before the process they watch starts (R11); wait-group pairing (R1); exactly one Send(CeaseProcessSetTrace) site followed by return, one instantiation per throw message (R46); WaitUntilComplete has an escape (R14); the catch registry is locked (R22).",
+		"Decides: `done` closed once (R20); watchers subscribed before the process they watch starts (R11); wait-group pairing (R1); exactly one Send(CeaseProcessSetTrace) site followed by return, one instantiation per throw message (R46); WaitUntilComplete has an escape (R14); the catch registry is locked (R22). Round 2: each instantiated process gets resources created in its own iteration (R64); the post of a throw to the set's mailbox cannot be dropped (R62); lock pairing and context agreement (R58,R60).",
 		"'returns true exactly when all completed' under all interleavings.")
 	prop("C19", "Builder output",
 		[]string{"R32", "R34", "R68", "R69"}, nil,
-		"Decides: the AddActivity type switch covers every activity type the process can store, or rejects it before linking; the node copy is appended only after link filled its incomings; link stores both ends (R32); generated ids do not come from a clock-only source (R34).",
+		"Decides: the AddActivity type switch covers every activity type the process can store, or rejects it before linking; the node copy is appended only after link filled its incomings; link stores both ends (R32); generated ids do not come from a clock-only source (R34). Round 2: no unsynchronised package-level random source (R68); Out() resets the whole builder (R69).",
 		"geometry (overlap, waypoints), executability.")
 	prop("C20", "Generated identifiers never collide",
 		[]string{"R23", "R33", "R34", "R68", "R70", "R72"}, nil,
-		"Decides: the fallback counter is only accessed atomically (R23); every id stored into flow/process/trace id fields originates from IGenerator.New (or the single pre-generated fork id) and the rolling NewWithTime is never used (R33); id sources are not a pure function of the clock (R34).",
+		"Decides: the fallback counter is only accessed atomically (R23); every id stored into flow/process/trace id fields originates from IGenerator.New (or the single pre-generated fork id) and the rolling NewWithTime is never used (R33); id sources are not a pure function of the clock (R34). Round 2: draws from the third-party generator are serialised (R72); Snapshot serialises the generator's own snapshot (R70); no unsynchronised shared random source (R68).",
 		"sno's own guarantees, time regressions, snapshot histories.")
 }
